@@ -583,17 +583,17 @@ def reportErrors(obj: model.Documentable, errs: Sequence[ParseError], section:st
     if not errs:
         return
 
-    errors = obj.system.parse_errors[section]
+    obj.system.parse_errors[section].add(obj.fullName())
 
-    if obj.fullName() not in errors:
-        errors.add(obj.fullName())
-
-        for err in errs:
-            obj.report(
-                f'bad {section}: ' + err.descr(),
-                lineno_offset=(err.linenum() or 1) - 1,
-                section=section
-                )
+    for err in errs:
+        # The same docstring can be parsed or rendered several times:
+        # the same problem is reported only once.
+        obj.report(
+            f'bad {section}: ' + err.descr(),
+            lineno_offset=(err.linenum() or 1) - 1,
+            section=section, 
+            once=True
+            )
 
 _docformat_skip_processtypes = ('google', 'numpy', 'plaintext')
 def parse_docstring(
